@@ -247,7 +247,7 @@ def dup_case(ctx, k):
             r0 = climon.run(d, ad["argv"] + ["-o", name] + inputs, tag="first", trace=False)
             if r0.rc != 0:
                 return
-        shape = rng.choice(["two-record-outputs", "two-record-outputs", "record-and-text", "pair-same-file", "pair-shared-first-file",
+        shape = rng.choice(["two-record-outputs", "two-record-outputs", "record-and-text", "record-and-json", "pair-same-file", "pair-shared-first-file",
                             "stdout-and-dash", "expanded-name-shares-one-file", "two-spellings", "two-spellings", "text-equals-expanded-name", "expanded-pair-same-file",
                             "redirect-equals-expanded-name", "redirect-equals-expanded-name"])
         ctx.count("duplicate_path_shape:" + shape)
@@ -378,6 +378,24 @@ def dup_case(ctx, k):
             if got != n_out:
                 ctx.violation("duplicate-path-clobbered", f"two outputs resolve to one destination ({shape}); exit 0, report says {n_out} reads written, the destination holds "
                               f"{got} parseable records; argv={argv}", case, facts=dict(shape=shape))
+            return
+        if shape == "record-and-json":
+            # the JSON report written over a record output
+            argv = ad["argv"] + ["-m", "12", "--too-short-output", "ts.fq", "-o", name, "--json", rng.choice([name, name, "ts.fq"])] + inputs
+            run = climon.run(d, argv, tag="dup", trace=False)
+            ctx.count("duplicate_path_runs")
+            ctx.case(("dup", str(argv), shape))
+            case = climon.case_record(argv, d, inputs)
+            case["dup_k"] = k
+            if run.rc != 0:
+                ctx.count("duplicate_path_refused")
+                return
+            fo, ft = run.records(name), run.records("ts.fq")
+            n1 = len(fo[1]) if fo and fo[0] != "error" else None
+            n2 = len(ft[1]) if ft and ft[0] != "error" else None
+            if n1 is None or n2 is None or n1 + n2 != len(recs):
+                ctx.violation("duplicate-path-clobbered", f"the JSON report shares its path with a record output; exit 0, the two record files hold {n1} and {n2} "
+                              f"parseable records of {len(recs)} reads; argv={argv}", case, facts=dict(shape=shape))
             return
         if shape == "record-and-text":
             extra = [rng.choice(["--info-file", "--rest-file"]), name]
